@@ -262,6 +262,10 @@ def run(res, replay=None):
         # F-ALLOC-BEYOND-FILE (regression) and of the listed finding F-ALLOC-LOG-RACE
         # the replacer itself (Model/Clock.v, theorems of Props/C13Clock.v: it refines the membership set the pool model uses, and its
         # victim sequence is that of a first-in-first-out queue) against buffer.ClockReplacer, every answer and the whole ring compared
+        # the file layer under the pool (Model/DiskFile.v, theorems of Props/C13Disk.v: read-after-write, holes, size, allocator start, log
+        # file) against disk.DiskManagerImpl on real files
+        import diskcorr
+        diskcorr.run_corr(res, random.Random(res.seed * 7919 + 133), 40 if res.tier == "quick" else 600)
         import clockcorr
         clockcorr.run_corr(res, random.Random(res.seed * 7919 + 132), 300 if res.tier == "quick" else 5000)
         import alloccorr
